@@ -1245,21 +1245,24 @@ pub fn run_case(
         }
         Mode::History => {
             let k = case.runs.len();
-            for (i, rs) in case.runs.iter().enumerate() {
-                let d = drive(&mut graph, &built, std::slice::from_ref(rs), mk_sched(i), true);
-                drives.push(d);
-            }
-            // probe run on a freshly built graph, same scheduler stream as the last
+            // the reference comes first: the last run on a freshly built graph, before
+            // anything else has happened (so state that an earlier run leaves anywhere -
+            // in the graph value or outside it - can only affect the reused-graph run)
             let (mut fresh, _b2) = build_graph(&case.graph).map_err(|e| CaseError::BuildPanic(e.0))?;
-            let d = drive(
+            let fresh_drive = drive(
                 &mut fresh,
                 &built,
                 std::slice::from_ref(&case.runs[k - 1]),
                 mk_sched(k - 1),
                 true,
             );
-            drives.push(d);
             drop(fresh);
+            for (i, rs) in case.runs.iter().enumerate() {
+                let d = drive(&mut graph, &built, std::slice::from_ref(rs), mk_sched(i), true);
+                drives.push(d);
+            }
+            // drives = [run 0 .. run k-1 on the reused graph, probe on the fresh graph]
+            drives.push(fresh_drive);
         }
     }
     drop(graph);
